@@ -209,8 +209,19 @@ class Check:
         closure = coq_closure(prop_file)
         n, names = count_obligations(closure)
         if not build_res.gen_error:
-            pb = build_targets([prop_file[:-2] + '.vo'])
-            if not pb.ok:
+            # regenerate and build in ONE lock hold, so that a concurrent check working on another
+            # NBDIME_REPO cannot swap Gen/*.v between translation and proof checking
+            lock = open(os.path.join(VERIF, '.coq-build.lock'), 'w'); fcntl.flock(lock, fcntl.LOCK_EX)
+            try:
+                g = _make(['gen'])
+                if g.returncode != 0:
+                    build_res.gen_error = (g.stderr + g.stdout)[-3000:]
+                    pb = None
+                else:
+                    pb = build_targets([prop_file[:-2] + '.vo'], locked=True)
+            finally:
+                fcntl.flock(lock, fcntl.LOCK_UN); lock.close()
+            if pb is not None and not pb.ok:
                 build_res.ok = False; build_res.failed_file = pb.failed_file; build_res.log = pb.log
         self.cov['obligations'] = n
         self.cov['checker_cmd'] = 'make -C /verif coq  (coq_makefile, coqc 8.16.1, full .vo build of %s and its closure)' % prop_file
